@@ -132,12 +132,12 @@ def setRun (buf : List Rgba8) (x : Nat) (px : List Rgba8) : List Rgba8 :=
   buf.take x ++ px ++ buf.drop (x + px.length)
 
 /-- copy_row_if_needed -/
-def rleCopyRow (s : Settings) (dx dy : Nat) (st : RleSt) : RleSt :=
-  if st.y ≥ s.tly ∧ st.y < dy then
-    { st with out := (st.y, sliceRow s.tlx dx st.buf) :: st.out, oob := st.oob || decide (s.tlx + dx > dx) }
+def rleCopyRow (tlx tly dx dy : Nat) (st : RleSt) : RleSt :=
+  if st.y ≥ tly ∧ st.y < dy then
+    { st with out := (st.y, sliceRow tlx dx st.buf) :: st.out, oob := st.oob || decide (tlx + dx > dx) }
   else st
 
-def rleLoop (rle4 : Bool) (pal : List Rgba8) (width : Nat) (s : Settings) (dx dy : Nat) (yinc yend : Int) :
+def rleLoop (rle4 : Bool) (pal : List Rgba8) (width : Nat) (tlx tly dx dy : Nat) (yinc yend : Int) :
     Nat → RleSt → Option RleSt
   | 0, _ => none
   | fuel + 1, st =>
@@ -149,23 +149,23 @@ def rleLoop (rle4 : Bool) (pal : List Rgba8) (width : Nat) (s : Settings) (dx dy
         let n := min count.toNat (dx - st.x)
         let px := (List.range n).map fun i =>
           if rle4 then palAt pal (if i % 2 = 0 then second.toNat / 16 else second.toNat % 16) else palAt pal second.toNat
-        rleLoop rle4 pal width s dx dy yinc yend fuel { st with buf := setRun st.buf st.x px, x := st.x + n }
+        rleLoop rle4 pal width tlx tly dx dy yinc yend fuel { st with buf := setRun st.buf st.x px, x := st.x + n }
       else if second = 0 then
-        let st := rleCopyRow s dx dy st
+        let st := rleCopyRow tlx tly dx dy st
         let y := st.y + yinc
-        if y = yend then some { st with y := y } else rleLoop rle4 pal width s dx dy yinc yend fuel { st with y := y, x := 0 }
-      else if second = 1 then some (rleCopyRow s dx dy st)
+        if y = yend then some { st with y := y } else rleLoop rle4 pal width tlx tly dx dy yinc yend fuel { st with y := y, x := 0 }
+      else if second = 1 then some (rleCopyRow tlx tly dx dy st)
       else if second = 2 then
         match st.cur with
         | ddx :: ddy :: cur =>
           let dyv : Int := (ddy.toNat : Int) * yinc
           let st := { st with cur := cur, pos := st.pos + 2 }
-          let st := if dyv ≠ 0 then rleCopyRow s dx dy st else st
+          let st := if dyv ≠ 0 then rleCopyRow tlx tly dx dy st else st
           let x := st.x + ddx.toNat
           if x > width then none else
           let y := st.y + dyv
           if (if yinc > 0 then y > yend else y < yend) then none else
-          rleLoop rle4 pal width s dx dy yinc yend fuel { st with x := x, y := y }
+          rleLoop rle4 pal width tlx tly dx dy yinc yend fuel { st with x := x, y := y }
         | _ => none
       else
         -- absolute mode: `count = second` clamped; only the clamped number of indices is consumed
@@ -180,7 +180,7 @@ def rleLoop (rle4 : Bool) (pal : List Rgba8) (width : Nat) (s : Settings) (dx dy
         let (cur, pos) := if pos % 2 = 1 then (cur.drop 1, pos + 1) else (cur, pos)
         -- rle4: a clamped odd count still stores the low nibble's pixel, one past the end of the buffer
         let over := rle4 && decide (n < second.toNat) && decide (n % 2 = 1)
-        rleLoop rle4 pal width s dx dy yinc yend fuel
+        rleLoop rle4 pal width tlx tly dx dy yinc yend fuel
           { st with cur := cur, pos := pos, buf := setRun st.buf st.x (idx.map (palAt pal)), x := st.x + n, oob := st.oob || over }
     | _ => none
 
@@ -194,7 +194,7 @@ def bmpReadRle (init : Rgba8) (file : Bytes) (info : BmpInfo) (pal : List Rgba8)
   let bottomUp := info.height > 0
   let st0 : RleSt := { cur := file.drop info.offset, pos := 0, buf := List.replicate dx ⟨0, 0, 0, 0⟩, x := 0,
                        y := if bottomUp then (dy : Int) - 1 else 0, out := [], oob := false }
-  match rleLoop (info.compression = 2) pal w s dx dy (if bottomUp then -1 else 1) (if bottomUp then -1 else dy)
+  match rleLoop (info.compression = 2) pal w s.tlx s.tly dx dy (if bottomUp then -1 else 1) (if bottomUp then -1 else dy)
           (file.length + h + 2) st0 with
   | none => .err
   | some st =>
@@ -214,7 +214,25 @@ def bmpNativeBits (info : BmpInfo) : Option Nat :=
   else if info.bpp = 24 ∨ info.bpp = 32 then some info.bpp
   else none
 
-/-- every BMP variant, decoded to rgba8 pixels + the information whether alpha is part of the native type.
+/-- the switch of reader::apply on bits per pixel and compression -/
+inductive BmpPath where
+  | palette        -- read_palette_image (1 bit; 4 / 8 bit uncompressed)
+  | rle            -- read_palette_image_rle (4 bit + RLE4, 8 bit + RLE8)
+  | hi16           -- read_data_15
+  | rgb24          -- read_data<bgr8_view_t>
+  | rgba32         -- read_data<bgra8_view_t>
+  | unsupported    -- io_error("Unsupported compression mode in BMP file.")
+  deriving DecidableEq, Repr
+
+def bmpPath (info : BmpInfo) : BmpPath :=
+  if info.bpp = 1 then .palette
+  else if info.bpp = 4 then (if info.compression = 2 then .rle else if info.compression = 0 then .palette else .unsupported)
+  else if info.bpp = 8 then (if info.compression = 1 then .rle else if info.compression = 0 then .palette else .unsupported)
+  else if info.bpp = 15 ∨ info.bpp = 16 then .hi16
+  else if info.bpp = 24 then .rgb24
+  else .rgba32
+
+/-- every BMP variant, decoded to rgba8 pixels (alpha: the file's for 32 bit, 0 for palette entries, 255 otherwise).
     `wantBits` = bits per pixel of the destination type (24 rgb8 / 32 rgba8); `none` = converting read (is_allowed = true) -/
 def bmpRead (init : Rgba8) (file : Bytes) (s : Settings) (wantBits : Option Nat) : Res Rgba8 :=
   match bmpReadHeader file with
@@ -227,27 +245,28 @@ def bmpRead (init : Rgba8) (file : Bytes) (s : Settings) (wantBits : Option Nat)
       let w := info.width.toNat
       let h := info.height.toNat
       let pitch := bmpPitch info
-      let palette (k : List Rgba8 → Res Rgba8) : Res Rgba8 :=
-        match bmpReadPalette info cur with
-        | none => .err
-        | some (pal, _) => k pal
-      let paletteImage := palette fun pal =>
-        .ok (readRows file (bmpGetOffset info pitch) pitch (bmpPaletteRowDec info.bpp pal) s w h)
-      -- the switch of reader::apply
-      if info.bpp = 1 then paletteImage
-      else if info.bpp = 4 then
-        (if info.compression = 2 then palette fun pal => bmpReadRle init file info pal s
-         else if info.compression = 0 then paletteImage else .err)
-      else if info.bpp = 8 then
-        (if info.compression = 1 then palette fun pal => bmpReadRle init file info pal s
-         else if info.compression = 0 then paletteImage else .err)
-      else if info.bpp = 15 ∨ info.bpp = 16 then
-        match bmpMasks info cur with
-        | none => .err
-        | some ms => .ok (mapImg (fun p => ⟨p.r, p.g, p.b, 255⟩)
-            (readRows file (bmpGetOffset info pitch) pitch (bmp16RowDec ms w) s w h))
-      else if info.bpp = 24 then .ok (mapImg (fun p => ⟨p.r, p.g, p.b, 255⟩) (bmpReadData bgr8 file info s))
-      else .ok (bmpReadData bgra8 file info s)
+      match bmpPath info with
+      | .palette =>
+        (match bmpReadPalette info cur with
+         | none => .err
+         | some (pal, _) => .ok (readRows file (bmpGetOffset info pitch) pitch (bmpPaletteRowDec info.bpp pal) s w h))
+      | .rle =>
+        (match bmpReadPalette info cur with
+         | none => .err
+         | some (pal, _) => bmpReadRle init file info pal s)
+      | .hi16 =>
+        (match bmpMasks info cur with
+         | none => .err
+         | some ms => .ok (mapImg (fun p => ⟨p.r, p.g, p.b, 255⟩) (readRows file (bmpGetOffset info pitch) pitch (bmp16RowDec ms w) s w h)))
+      | .rgb24 => .ok (mapImg (fun p => ⟨p.r, p.g, p.b, 255⟩) (bmpReadData bgr8 file info s))
+      | .rgba32 => .ok (bmpReadData bgra8 file info s)
+      | .unsupported => .err
+
+/-- the file is run-length encoded (the one BMP variant that is not read row by row) -/
+def bmpIsRle (file : Bytes) : Bool :=
+  match bmpReadHeader file with
+  | some (info, _) => decide (bmpPath info = .rle)
+  | none => false
 
 /-! ## PNM ascii (P1 / P2 / P3) -/
 
@@ -283,10 +302,11 @@ def pnmRead {α} (f : PixFmt α) (isRgb : Bool) (convert : Bool) (file : Bytes) 
   | none => .err
   | some (info, data) =>
     let t := info.type
-    let allowed := convert || (if isRgb then t = 3 ∨ t = 6 else t = 1 ∨ t = 2 ∨ t = 5)
-    if !allowed then .err
-    else if t = 1 ∨ t = 2 ∨ t = 3 then .ok (pnmReadText f data info s)
-    else if t = 5 ∨ t = 6 then .ok (pnmReadBin f data info s)
+    let allowed : Bool := convert || (if isRgb then decide (t = 3 ∨ t = 6) else decide (t = 1 ∨ t = 2 ∨ t = 5))
+    if allowed = true then
+      (if t = 1 ∨ t = 2 ∨ t = 3 then .ok (pnmReadText f data info s)
+       else if t = 5 ∨ t = 6 then .ok (pnmReadBin f data info s)
+       else .err)
     else .err
 
 /-! ## scanline readers: `read(buffer, pos)` -/
